@@ -243,6 +243,12 @@ func (sim) Generate(prop, tier string, seed uint64) *core.Plan {
 				// ChangePassphrase returning and its transaction committing
 				a[5] = int64(1 + r.Intn(2))
 			}
+			if prop == "C05" && a[5] == 0 && r.Intn(4) == 0 {
+				// the change is rolled back (the closure fails after
+				// ChangePassphrase returned, or the commit fails): the
+				// passphrases that were current stay current
+				a[2] = int64(1 + r.Intn(2))
+			}
 			if prop == "C08" {
 				// Passphrases are not among the things property C08 compares
 				// across a restart; a rolled-back change belongs to C10.
